@@ -68,7 +68,8 @@ pub fn rel_name(r: u32) -> String {
     if r < 10 {
         format!("e{}", r)
     } else if r == 99 {
-        "q".to_string()
+        // the name the protocol handler gives the query rule (Magic Sets only look at this head)
+        "__query__".to_string()
     } else {
         format!("p{}", r)
     }
@@ -553,12 +554,19 @@ pub fn gen_program(r: &mut Rng, cfg: &GenCfg) -> (Program, Vec<&'static str>) {
     let last = *heads.last().unwrap();
     let q = cx.clause(99, &pos, &neg, Some(last), true);
     clauses.push(q);
+    if cx.r.chance(1, 3) {
+        // the query relation itself defined by two rules (a Union at the answer node)
+        let mut pos2: Vec<u32> = edbs.clone();
+        pos2.extend(heads.iter().cloned());
+        let q2 = cx.clause(99, &pos2, &neg, None, true);
+        clauses.push(q2);
+    }
     if cx.r.chance(1, 2) {
         // rule order is irrelevant to the meaning: exercise orders where a rule precedes what it depends on
-        let n = clauses.len() - 1;
+        let n = clauses.iter().position(|c| c.head == 99).unwrap();
         let mut head_part = clauses[..n].to_vec();
         cx.r.shuffle(&mut head_part);
-        head_part.push(clauses[n].clone());
+        head_part.extend(clauses[n..].iter().cloned());
         clauses = head_part;
         tags.push("shuffled-rules");
     }
@@ -615,4 +623,41 @@ pub fn gen_shared_family(r: &mut Rng) -> (Program, Edb, Vec<&'static str>) {
     }
     clauses.push(q);
     (Program { clauses }, vec![(0, e0), (2, e2)], vec!["shared-family"])
+}
+
+
+/// A recursive binary relation (base and step possibly over DIFFERENT stored relations, left- or
+/// right-linear) queried with one argument bound to a constant, in exactly the form the handler
+/// builds (`__query__(..) <- reach(X0, X1), X0 = c`): the shape Magic Sets rewrites.
+pub fn gen_bound_rec_family(r: &mut Rng) -> (Program, Edb, Vec<&'static str>) {
+    use Lit::*;
+    let ea = r.below(2) as u32;
+    let eb = r.below(2) as u32;
+    let v = |i: u32| Term::Var(i);
+    let base = Clause { head: 10, args: vec![HTerm::Var(0), HTerm::Var(1)], body: vec![Pos(ea, vec![v(0), v(1)])] };
+    let step = if r.chance(1, 2) {
+        Clause { head: 10, args: vec![HTerm::Var(0), HTerm::Var(2)], body: vec![Pos(10, vec![v(0), v(1)]), Pos(eb, vec![v(1), v(2)])] }
+    } else {
+        Clause { head: 10, args: vec![HTerm::Var(0), HTerm::Var(2)], body: vec![Pos(eb, vec![v(0), v(1)]), Pos(10, vec![v(1), v(2)])] }
+    };
+    let c = r.range(0, 3);
+    let bound = r.below(2) as u32;
+    let q = Clause { head: 99, args: vec![HTerm::Var(0), HTerm::Var(1)], body: vec![Pos(10, vec![v(0), v(1)]), Cmp(CmpOp::Eq, v(bound), Term::Int(c))] };
+    let mut clauses = vec![base, step];
+    if r.chance(1, 3) {
+        clauses.swap(0, 1);
+    }
+    clauses.push(q);
+    let mut edb = vec![];
+    for rel in 0..2u32 {
+        let mut ts: Vec<Tuple> = vec![];
+        for _ in 0..r.range(3, 8) {
+            let t = Tuple::new(vec![Value::Int64(r.range(0, 4)), Value::Int64(r.range(0, 4))]);
+            if !ts.contains(&t) {
+                ts.push(t);
+            }
+        }
+        edb.push((rel, ts));
+    }
+    (Program { clauses }, edb, vec!["bound-recursive-query", "self-recursive"])
 }
